@@ -15,6 +15,15 @@ use crate::engine::{gen, hash_of, Check, Fail, Property, Rec, TResult, Tier};
 use crate::ensure;
 use crate::mocks::{purse_contract, PurseMsg};
 use crate::refmath::{to_u128, u};
+/// the pair's MINIMUM_COLLECTABLE_BALANCE and the collector's MINIMUM_AGGREGABLE_BALANCE as compiled
+/// (cfg(wwcore_verif) hooks), so that a tree with other thresholds is judged against its own
+fn pair_threshold() -> u128 {
+    terraswap_pair::verif_hooks::MINIMUM_COLLECTABLE_BALANCE.u128()
+}
+fn collector_threshold() -> u128 {
+    fee_collector::verif_hooks::MINIMUM_AGGREGABLE_BALANCE.u128()
+}
+
 use crate::world::{asset, dec, native, pool_fee, token, vault_fee, World, DAY_NS, START_TIME_S};
 
 pub const FUND: u128 = 1u128 << 110;
@@ -372,7 +381,7 @@ impl Hub {
 
     /// protocol fees charged by swaps executed inside a transaction, per (pair index, asset index),
     /// read from the swap events (claims validated by C07)
-    fn swap_fees_in(&self, resp: &cw_multi_test::AppResponse) -> Vec<[u128; 4]> {
+    fn swap_fees_in(&self, resp: &cw_multi_test::AppResponse) -> Result<Vec<[u128; 4]>, Fail> {
         let mut out = vec![[0u128; 4]; self.pairs.len()];
         for ev in &resp.events {
             if ev.ty != "wasm" {
@@ -384,13 +393,14 @@ impl Hub {
             }
             let Some(addr) = get("_contract_addr") else { continue };
             let Some(pi) = self.pairs.iter().position(|p| p.as_str() == addr) else { continue };
-            let ask = get("ask_asset").unwrap_or_default();
-            let fee: u128 = get("protocol_fee_amount").and_then(|v| v.parse().ok()).unwrap_or(0);
+            let (Some(ask), Some(fee)) = (get("ask_asset"), get("protocol_fee_amount").and_then(|v| v.parse::<u128>().ok())) else {
+                return Err(Fail::unobservable("a swap event of a registered pair carries no parsable ask_asset / protocol_fee_amount attributes"));
+            };
             if let Some(ai) = self.assets.iter().position(|a| a.to_string() == ask) {
                 out[pi][ai] += fee;
             }
         }
-        out
+        Ok(out)
     }
 
     fn current_epoch(&self) -> Result<fd::Epoch, String> {
@@ -675,7 +685,7 @@ impl Check for FeePipeline {
                     };
                     rec.class("new_epoch_ok");
                     // swaps executed by the aggregation charge new protocol fees in the pairs they cross
-                    let agg_fees = h.swap_fees_in(&resp);
+                    let agg_fees = h.swap_fees_in(&resp)?;
                     // (1) pending fees collected
                     let mut collected = vec![0u128; 4];
                     let mut from_pairs = 0u128;
@@ -686,7 +696,13 @@ impl Check for FeePipeline {
                             let a = after[j].1;
                             let added = agg_fees[i][*k];
                             if registered[i] {
-                                let kept = if *before_amt > 1000 { 0 } else { *before_amt };
+                                // An entry above the pool's collection threshold must be collected; a smaller one is
+                                // either collected or left as it was (the statement gives no number for the
+                                // threshold; the pool's own constant, read through a hook, bounds what may stay behind).
+                                let kept = if *before_amt <= pair_threshold() && a == *before_amt + added { *before_amt } else { 0 };
+                                if kept != 0 {
+                                    rec.class("sub_threshold_entry_left_in_pool");
+                                }
                                 ensure!(
                                     a == kept + added,
                                     "step {step}: pair {i} owes {a} of asset {k} after NewEpoch (was {before_amt}, aggregation swaps added {added}); expected {}",
@@ -728,7 +744,7 @@ impl Check for FeePipeline {
                             // registrations and routes are untouched and the constant-product
                             // simulation succeeds for any positive reserves.)
                             let listed = (0..3).any(|i| registered[i] && h.pair_assets[i].contains(&k)) || h.vault_assets.contains(&k);
-                            if untouched > 1000 && listed {
+                            if untouched > collector_threshold() && listed {
                                 let route: Result<Vec<router::SwapOperation>, String> = h.w.query(
                                     &h.router,
                                     &router::QueryMsg::SwapRoute { offer_asset_info: h.assets[k].clone(), ask_asset_info: h.assets[0].clone() },
